@@ -5,6 +5,7 @@
 From Coq Require Import List Bool Arith ZArith.
 From HV Require Import Ord Sprout Select SelectFacts Tree TreeLemmas TreeInv TreeRun TreeRan Hist HistFacts.
 From HV Require Import DriverPrim Driver DriverFacts GenDriver GenEquivDriver DriverCode.
+From HV Require GenPersist GenEquivPersist.
 Import ListNotations.
 
 (* the invariants are inductive from ANY state satisfying them, not only from the initial one: structure (WFT), level limit (LL),
@@ -47,3 +48,10 @@ Theorem C19_translated_resume c fuel s evs s' rest :
     (forall k s_k, run c s (firstn k used) = Some s_k -> INV c s_k).
 Proof. exact (code_resume_keeps_invariants c fuel s evs s' rest). Qed.
 Print Assumptions C19_translated_resume.
+
+(* what a snapshot is, read off the current sources (Gen/GenPersist.v): pickle_dump / pickle_load are the plain dump / load of the tree
+   object and no class of the package customises pickling or copying *)
+Theorem C19_translated_snapshot_is_default_pickle :
+  GenPersist.pickle_customisations = [] /\ GenPersist.dump_is_plain = true /\ GenPersist.load_is_plain = true.
+Proof. exact GenEquivPersist.snapshot_is_default_pickle. Qed.
+Print Assumptions C19_translated_snapshot_is_default_pickle.
